@@ -196,20 +196,20 @@ Proof. intro s. destruct (dispatch_core s e ks) as (A & _ & _ & _ & _ & G & H & 
 Lemma process_event_fsame s e : fsame s (process_event K s e).
 Proof. destruct (process_event_core K s e) as (A & _ & _ & _ & _ & G & H & _). now apply core_fsame. Qed.
 
-Lemma read_loop_failc fuel tn : forall x total notes,
-  failc (fst (fst (fst (read_loop K fuel tn x total notes)))) = failc x.
+Lemma read_loop_failc fuel lim tn : forall x total notes,
+  failc (fst (fst (fst (read_loop K fuel lim tn x total notes)))) = failc x.
 Proof.
   induction fuel as [|f IH]; intros x total notes; cbn [read_loop]; [reflexivity|].
   destruct (prepare_read ideal (c_cap K) (q x)) as [q1 [off|]]; [|reflexivity].
   destruct (qev x) as [|e rest]; [reflexivity|].
   destruct (negb (c_grace K =? 0) && (tn <? ets e)); [reflexivity|].
-  assert (Hgo : forall c,
-    let x1 := set_thr_tbuf (set_thr_q x (finish_read ideal q1 (esz e)) rest) (tbuf x ++ [e]) c in
-    let r := if (total + esz e <? c_cap K) && (N.of_nat (length (tbuf x1)) <? c_hard K)
-             then read_loop K f tn x1 (total + esz e) (notes ++ fmt_notes e)
+  assert (Hgo : forall c g,
+    let x1 := sh g (set_thr_tbuf (set_thr_q x (finish_read ideal q1 (esz e)) rest) (tbuf x ++ [e]) c) in
+    let r := if (total + esz e <? lim) && (N.of_nat (length (tbuf x1)) <? c_hard K)
+             then read_loop K f lim tn x1 (total + esz e) (notes ++ fmt_notes e)
              else (x1, total + esz e, notes ++ fmt_notes e, false) in
     failc (fst (fst (fst r))) = failc x).
-  { intros c x1 r. unfold r. destruct ((total + esz e <? c_cap K) && (N.of_nat (length (tbuf x1)) <? c_hard K)).
+  { intros c g x1 r. unfold r. destruct ((total + esz e <? lim) && (N.of_nat (length (tbuf x1)) <? c_hard K)).
     - rewrite IH. reflexivity.
     - reflexivity. }
   destruct (efmt e); destruct (ekind e); destruct (c_catch_all K); try reflexivity; apply Hgo.
@@ -217,8 +217,8 @@ Qed.
 
 Lemma read_queue_failc tn x : failc (fst (fst (read_queue K tn x))) = failc x.
 Proof.
-  unfold read_queue. pose proof (read_loop_failc (S (length (qev x))) tn x 0 []) as H.
-  destruct (read_loop K (S (length (qev x))) tn x 0 []) as [[[x1 total] notes] esc]. cbn [fst] in *.
+  unfold read_queue. pose proof (read_loop_failc (S (length (qev x))) (read_limit K x) tn x 0 []) as H.
+  destruct (read_loop K (S (length (qev x))) (read_limit K x) tn x 0 []) as [[[x1 total] notes] esc]. cbn [fst] in *.
   destruct (total =? 0); cbn [fst]; exact H.
 Qed.
 
@@ -358,7 +358,7 @@ End Cnt.
 
 (* ---------- from the initial state *)
 Definition init_like (s0 : st) : Prop :=
-  registered s0 = [] /\ (forall t, th s0 t = thr0) /\ gh s0 = {| g_denied := 0; g_reported := 0; g_lost := 0 |}.
+  registered s0 = [] /\ (forall t, fresh_thr (th s0 t)) /\ gh s0 = {| g_denied := 0; g_reported := 0; g_lost := 0 |}.
 
 Theorem be_count K s0 ops : init_like s0 ->
   let s := run K s0 ops in
@@ -367,7 +367,7 @@ Theorem be_count K s0 ops : init_like s0 ->
 Proof.
   intros (R0 & T0 & G0) s.
   assert (I0 : CntInv s0).
-  { constructor; rewrite ?R0, ?G0; cbn; [constructor|intros u _; now rewrite T0|reflexivity]. }
+  { constructor; rewrite ?R0, ?G0; cbn; [constructor|intros u _; destruct (T0 u) as (v & ->); reflexivity|reflexivity]. }
   assert (L0 : NoLoss K s0) by (intros _; now rewrite G0).
   destruct (run_cnt K ops s0 I0 L0) as [[_ _ S] L]. split; [exact S|exact L].
 Qed.
